@@ -26,6 +26,12 @@ CLAIMED = {
   'C05': dict(section='4 C05', technique='Coq proof (axiom-free) that column-wise preprocessing then stacking forms the tuples, and that validation of indicators+preprocessor equals validation of formed data; bit-identical differential on all estimators and methods',
               text='Theorem C05_holds: preprocess_tuples with a pointwise preprocessor equals map (map pre1) for every width; ArrayIndexer is X[idx]; check_input on indicators with a preprocessor equals check_input on the formed array (so every downstream value is equal); formed data never consults the preprocessor; a preprocessor exception surfaces as PreprocessorError; every translated method passes preprocessor=self.preprocessor_. Tie: for all 17 estimators, fit and every query method on indices (int8..int64, list, repeats, arbitrary order) through ndarray / list / callable preprocessors give bit-identical models and outputs to formed data; counting and raising callables.',
               note='trusted: Coq kernel, hand-written models Model/Preproc.v and Model/Validate.v, numpy fancy indexing (oracle); no axioms'),
+  'C17': dict(section='4 C17', technique='Coq proof (axiom-free) of history independence for the estimator state machine whose n_features_in_ rule and closure-capture fact are translated from the source; bit-exact history differential on all 17 estimators',
+              text='Theorem C17_partial: for an arbitrary learner solve(params, data), after any operation sequence ending in fit(d) the components, threshold and n_features_in_ equal those of a fresh clone fitted once, n_features_in_ is the last-axis size of d; query/get_metric/clone/pickle operations preserve the state; only set_params changes parameters; a get_metric closure is a snapshot. The two rules the proof needs (n_features_in_ recorded on every fit from the last axis; closure captures a copy) are re-extracted from base_metric.py on every run. Partial: determinism of each solver and non-mutation of arguments are explored, not proved: random histories (fit on datasets of different n and d, set_params, set_threshold, calibrate, queries, get_metric, in-place mutation of the returned matrix, clone, pickle) must end bit-identical to a fresh fit; bytes of all array arguments hashed before/after.',
+              note='trusted: Coq kernel, translators translate_prepare.py / translate_query.py; determinism of numpy/scipy/scikit-learn kernels and absence of aliasing are explored (PYTHONHASHSEED fixed), not modelled; one KNOWN-FINDING (clone after pickle)'),
+  'C08': dict(section='4 C08', technique='Coq proof that the translated supervised fit pipelines equal the documented ones (reflexivity on generated data) + re-exported C07 clauses; bit-identical differential against the base learner on Constraints-derived tuples',
+              text='Theorem C08_holds (axiom-free): the statement-by-statement pipeline of every *_Supervised.fit, extracted from the source on this run, is the documented one (prepare inputs, Constraints(y) with random_state=self.random_state and default 20*n_classes^2, tuple formation, delegation to the base _fit with the same hyper-parameters); constraints never involve a point with unknown label, for every random stream. Tie: components_ of each supervised fit is bit-identical to the base learner fitted on the tuples the public Constraints helper derives from y (with and without -1 labels at random/front/back positions, default and explicit parameters, integer seeds).',
+              note='trusted: Coq kernel, translator translate_supervised.py (canonical spelling of statements), C07 model'),
 }
 
 NOT_YET = {}
